@@ -219,7 +219,7 @@ def collectCaptured (sc : Scope) (bound : List String) (acc : List (String × Ty
   | .constr _ _ args => collectCapturedList sc bound acc args
   | .tuple _ items => collectCapturedList sc bound acc items
   | .array _ items => collectCapturedList sc bound acc items
-  | .closure _ _ _ => acc      -- not a Lift node: a lifted body contains none
+  | .closure _ ps body => collectCaptured sc (bound ++ ps.map (·.1)) acc body   -- not a Lift node (never reached)
   | .letE x v body => collectCaptured sc (bound ++ [x]) (collectCaptured sc bound acc v) body
   | .matchE _ scrut arms dflt =>
     let acc := collectCapturedArms sc bound (collectCaptured sc bound acc scrut) arms
@@ -235,7 +235,7 @@ def collectCaptured (sc : Scope) (bound : List String) (acc : List (String × Ty
   | .call _ f args => collectCapturedList sc bound (collectCaptured sc bound acc f) args
   | .toDyn _ _ _ e => collectCaptured sc bound acc e
   | .dynCall _ _ _ recv args => collectCapturedList sc bound (collectCaptured sc bound acc recv) args
-  | .traitCall _ _ _ _ _ => acc  -- not a Lift node
+  | .traitCall _ _ _ recv args => collectCapturedList sc bound (collectCaptured sc bound acc recv) args  -- not a Lift node
   | .proj _ _ e => collectCaptured sc bound acc e
 def collectCapturedList (sc : Scope) (bound : List String) (acc : List (String × Ty)) : List Expr → List (String × Ty)
   | [] => acc
@@ -443,8 +443,10 @@ def transformExpr (st : State) (sc : Scope) : Expr → Expr × Ty × State
     let (recv', _, st) := transformExpr st sc recv
     let (args', _, st) := transformList st sc args
     (.dynCall tr m ty recv' args', ty, st)
-  | .traitCall tr m ty recv args =>      -- not a Mono node; kept as is
-    (.traitCall tr m ty recv args, ty, st)
+  | .traitCall tr m ty recv args =>      -- not a Mono node; treated like a dyn call
+    let (recv', _, st) := transformExpr st sc recv
+    let (args', _, st) := transformList st sc args
+    (.traitCall tr m ty recv' args', ty, st)
   | .proj idx ty e =>
     let (e', ety, st) := transformExpr st sc e
     let pty := match ety with
